@@ -1083,6 +1083,8 @@ Proof.
   - apply Fin; [reflexivity|]. apply RD; reflexivity.
   - destruct (RT eq_refl) as [s' [A [B [C [D E]]]]]. exists s'. auto.
   - destruct (RT eq_refl) as [s' [A [B [C [D E]]]]]. exists s'. auto.
+  - apply Fin; [reflexivity|]. apply RO; [reflexivity | discriminate].
+  - apply Fin; [reflexivity|]. apply RO; [reflexivity | discriminate].
 Qed.
 
 (* ================================================================ every observation satisfies the oracle *)
